@@ -13,7 +13,10 @@ from rdflib import BNode, Literal, URIRef
 
 from .. import enc, framework as F, shapes as S, evalcheck as EC, leaves as LV
 from ..enc import EX, SH
-from . import c05, c15
+from rdflib.namespace import RDFS
+from . import c02, c05, c15
+
+c02_classes = S.CLASSES + [EX.C3, EX.C4]
 
 PROP = "C09"
 WORKER = os.path.join(F.VERIF, "harness", "c09_worker.py")
@@ -81,6 +84,13 @@ def main(tier, seed, replay=None):
             elif r < 0.65:
                 c = c05.gen_case(rng)
                 opts, api, fam = {}, "validate", "sparql constraints"
+            elif r < 0.8:
+                # class targets over subclass hierarchies with diamonds and cycles: the order in which the store lists
+                # the subclasses of a class is an insertion-order effect
+                c = c02.gen_case(rng)
+                for _ in range(rng.randint(2, 5)):
+                    c["data"].add((rng.choice(c02_classes), RDFS.subClassOf, rng.choice(c02_classes)))
+                opts, api, fam = {}, "validate", "targets over class lattices"
             else:
                 c = c15.gen_case(rng)
                 opts = {"iterate_rules": c["opts"].get("iterate_rules", False)}
@@ -135,7 +145,7 @@ def main(tier, seed, replay=None):
     cov.update({
         "evaluations": len(jobs) + len(mcases),
         "distinct_nontrivial": len(cases),
-        "rule": "(1) Tie B: validate() against the evaluator model with the shapes given in shuffled order; (2) the property: each case (nested shapes, all core components, SPARQL constraints and components, rule sets with pairwise distinct sh:order through shacl_rules() and validate(advanced)) is run in a baseline process and in %d further processes with PYTHONHASHSEED in %r, triples inserted in shuffled order, blank nodes relabelled consistently in data and shapes, other prefix bindings: verdict, number of results in the text, and the multiset of results (focus, value, path, component, source shape, severity, nested details; blank nodes named by their descriptions) must be equal" % (nvar, SEEDS),
+        "rule": "(1) Tie B: validate() against the evaluator model with the shapes given in shuffled order; (2) the property: each case (nested shapes, all core components, SPARQL constraints and components, class targets over subclass lattices with diamonds and cycles, rule sets with pairwise distinct sh:order through shacl_rules() and validate(advanced)) is run in a baseline process and in %d further processes with PYTHONHASHSEED in %r, triples inserted in shuffled order, blank nodes relabelled consistently in data and shapes, other prefix bindings: verdict, number of results in the text, and the multiset of results (focus, value, path, component, source shape, severity, nested details; blank nodes named by their descriptions) must be equal" % (nvar, SEEDS),
         "distribution": dict(stats, differences=len(diffs), model_disagreements=len(failed)),
         "samples": [{"family": cases[0]["family"], "options": cases[0]["options"]}],
         "exhaustive": False,
